@@ -121,9 +121,65 @@ def neg_int(co, k):
     return ({a: -c for a, c in co.items()}, -k + 1)
 
 
+def cone(cons, seed_atoms):
+    """constraints connected to the seed atoms through shared atoms (cone of influence).  Dropping the rest is sound for
+    refutation: an infeasible subset makes the whole set infeasible."""
+    atoms = set(seed_atoms)
+    rest = [c for c in cons if c[0]]
+    picked = []
+    changed = True
+    while changed and rest:
+        changed = False
+        keep = []
+        for c in rest:
+            if any(a in atoms for a in c[0]):
+                picked.append(c)
+                atoms.update(c[0].keys())
+                changed = True
+            else:
+                keep.append(c)
+        rest = keep
+    return picked
+
+
+_cache = {}
+
+
+def _key(cons):
+    return frozenset((frozenset(c[0].items()), c[1]) for c in cons)
+
+
+def feasible_cached(cons):
+    k = _key(cons)
+    r = _cache.get(k)
+    if r is None:
+        r = feasible(cons)
+        if len(_cache) > 200000:
+            _cache.clear()
+        _cache[k] = r
+    return r
+
+
 def entails(cons, goal):
-    """do the constraints entail goal (e <= 0) over the integers?  (checked on the rational relaxation of cons ∧ e >= 1)"""
+    """do the constraints entail goal (e <= 0) over the integers?  (checked on the rational relaxation of cons ∧ e >= 1,
+    restricted to the cone of influence of the goal)"""
     co, k = goal
     if not co:
         return k <= 0
-    return not feasible(list(cons) + [neg_int(co, k)])
+    # constant contradictions anywhere make everything entailed
+    for c in cons:
+        if not c[0] and c[1] > 0:
+            return True
+    sub = cone(cons, co.keys())
+    return not feasible_cached(sub + [neg_int(co, k)])
+
+
+def feasible_after(cons, new):
+    """is cons ∧ new feasible, given that cons alone was feasible: only the cone of the new constraints can be affected"""
+    seeds = set()
+    for c in new:
+        if not c[0] and c[1] > 0:
+            return False
+        seeds.update(c[0].keys())
+    sub = cone(list(cons) + list(new), seeds)
+    return feasible_cached(sub)
